@@ -84,7 +84,31 @@ type Deliv struct {
 	Recs   [][2]ORec `json:"r"` // per tracked output id: standard key, contract key
 }
 
+// KRec: one utxo of a keeper observation (labels): output id, asset, amount, program, vote, account, index, change, valid height
+type KRec [9]int64
+
+// KFlag: what the keeper hands out with one value of useUnconfirmed: per query (account 1 / 2 x
+// no vote / the vote key) the (id, valid height) pairs of findUtxos sorted by id and the immature
+// amount; per asked id the valid height of the utxo ReserveParticular reserves (-1: refused)
+type KFlag struct {
+	Find [][][2]int64 `json:"f"`
+	Imm  []uint64     `json:"i"`
+	Res  []int64      `json:"r"`
+}
+
+// KObs: one observation of the real keeper (C25/KeeperRun.v)
+type KObs struct {
+	H    uint64   `json:"h"`
+	Std  []KRec   `json:"s"`
+	Ctr  []KRec   `json:"c"`
+	Unc  []KRec   `json:"u"`
+	Ids  []int    `json:"ids"`
+	True KFlag    `json:"t"`
+	False KFlag   `json:"n"`
+}
+
 type Result struct {
+	Keeper  []KObs         `json:"keeper,omitempty"`
 	ID      int            `json:"id"`
 	Panic   string         `json:"panic,omitempty"`
 	Hang    bool           `json:"hang,omitempty"`
@@ -271,12 +295,29 @@ type world struct {
 	cnt    map[string]int
 	nchild map[int]int
 	order  []int // delivery order (labels above the trunk)
+	// "rescan" stream: rescans[i] starts before delivery i
+	rescans map[int]*rescanOp
+	late    []int // late programs no rescan of the case has taught the wallet yet
+}
+
+// rescanOp: the wallet (optionally after registering a late program) is told to rescan from
+// genesis.  len(Steps) = 0: the updater runs freely and the wallet is observed when it has caught
+// up.  Otherwise the updater is held at the turnstile of its database (gateDB): it performs
+// Steps[0] attach / detach operations, then the next delivery reaches the node, then Steps[1]
+// operations, ... and after len(Steps) deliveries the updater is released.
+type rescanOp struct {
+	Learn int    // late program registered first (0: none)
+	Alias bool   // trigger: Wallet.UpdateAccountAlias (which rescans) instead of Wallet.RescanBlocks
+	Steps []int
 }
 
 const TrunkLen = 16
 
 func newWorld(e *Env, r *Rng, kind string) *world {
-	g := &world{e: e, r: r, kind: kind, byHash: map[bc.Hash]int{}, cnt: map[string]int{}, nchild: map[int]int{}}
+	g := &world{e: e, r: r, kind: kind, byHash: map[bc.Hash]int{}, cnt: map[string]int{}, nchild: map[int]int{}, rescans: map[int]*rescanOp{}}
+	if kind == "rescan" {
+		g.late = append([]int(nil), LatePrograms...)
+	}
 	st := &bstate{}
 	st.applyBlock(e, e.W.Genesis.Block)
 	g.blocks = append(g.blocks, &gblock{label: 0, parent: -1, info: e.W.Genesis, st: st})
@@ -320,7 +361,14 @@ func (g *world) addBlock(parent int, txs []*types.Tx, reward int, just bool) int
 
 var walletProgs = []int{PA1, PA2, PAChange, PB1}
 
+// keyedWalletProg: a program of the accounts' keys (registered from the start, or a late one)
+func keyedWalletProg(p int) bool { return (p >= PA1 && p <= PB1) || (p >= PA3 && p <= PA4) }
+
 func (g *world) pickProg() int {
+	if g.kind == "rescan" && g.r.Chance(22) {
+		// a program of the accounts' keys the wallet registers late or never
+		return LatePrograms[g.r.Intn(len(LatePrograms))]
+	}
 	x := g.r.Intn(100)
 	switch {
 	case x < 62:
@@ -350,7 +398,7 @@ func (g *world) makeTx(ins []uinfo) *types.Tx {
 	val := sum - cl.DefaultFee
 	n := 1 + g.r.Intn(3)
 	voteChance := 30
-	if g.kind == "votes" || g.kind == "down" {
+	if g.kind == "votes" || g.kind == "down" || g.kind == "pool" {
 		voteChance = 55
 	}
 	var specs []cl.OutSpec
@@ -385,7 +433,7 @@ func (g *world) pickInputs(st *bstate, H uint64) []uinfo {
 		if u.prog < 0 { // genesis output etc.: no key
 			continue
 		}
-		if u.prog >= PA1 && u.prog <= PB1 {
+		if keyedWalletProg(u.prog) {
 			mine = append(mine, u)
 		} else {
 			other = append(other, u)
@@ -427,7 +475,7 @@ func (g *world) countIns(ins []uinfo) {
 		case u.vote:
 			k = "in:veto"
 		}
-		if u.prog >= PA1 && u.prog <= PB1 {
+		if keyedWalletProg(u.prog) {
 			k += "-wallet"
 		}
 		g.count(k)
@@ -623,6 +671,83 @@ func (g *world) downTree() {
 	}
 }
 
+// rescanTree ("rescan" stream): a growing best branch with 1..3 rescans from genesis.  A rescan is
+// triggered by Wallet.RescanBlocks (or by UpdateAccountAlias), often right after the wallet has
+// registered a late program that earlier blocks already pay.  Some rescans run freely; most are
+// held after a random number of the updater's operations (anywhere between genesis and the tip,
+// more often above the funding block 15) while the node receives further blocks: extensions of the
+// best branch, or a side branch that overtakes it so that the updater, resumed, finds its best
+// block off the main chain and detaches in the middle of the rescan.
+func (g *world) rescanTree() {
+	tip := TrunkLen
+	for i, n := 0, 3+g.r.Intn(5); i < n; i++ {
+		tip = g.randomBlock(tip, false)
+	}
+	for ep, neps := 0, 1+g.r.Intn(3); ep < neps; ep++ {
+		op := &rescanOp{Alias: g.r.Chance(15)}
+		if len(g.late) > 0 && g.r.Chance(65) {
+			op.Learn, g.late = g.late[0], g.late[1:]
+		}
+		at := len(g.order)
+		if g.r.Chance(80) {
+			H := int(g.height(tip))
+			first := g.r.Intn(H + 3)
+			if g.r.Chance(60) {
+				first = 15 + g.r.Intn(H-13)
+			}
+			op.Steps = []int{first}
+			more := func() {
+				x := 0
+				if g.r.Chance(40) {
+					x = 1 + g.r.Intn(4)
+				}
+				op.Steps = append(op.Steps, x)
+			}
+			if g.r.Chance(70) {
+				// a side branch overtakes the best branch while the rescan is held
+				p := g.path(tip)
+				k := len(p) - 1 - (1 + g.r.Intn(4))
+				if k < TrunkLen {
+					k = TrunkLen
+				}
+				b := p[k]
+				for g.height(b) <= g.height(tip) {
+					b = g.randomBlock(b, false)
+					more()
+				}
+				if g.r.Chance(30) {
+					b = g.randomBlock(b, false)
+					more()
+				}
+				tip = b
+			} else {
+				for i, n := 0, 1+g.r.Intn(2); i < n; i++ {
+					tip = g.randomBlock(tip, false)
+					more()
+				}
+			}
+			op.Steps = op.Steps[:len(op.Steps)-1] // one allowance before each held delivery
+		}
+		g.rescans[at] = op
+		for i, n := 0, 1+g.r.Intn(3); i < n; i++ {
+			tip = g.randomBlock(tip, false)
+		}
+		if g.r.Chance(35) {
+			// an ordinary reorganisation between the rescans
+			p := g.path(tip)
+			k := len(p) - 1 - (1 + g.r.Intn(3))
+			if k < TrunkLen {
+				k = TrunkLen
+			}
+			b := p[k]
+			for g.height(b) <= g.height(tip) {
+				b = g.randomBlock(b, false)
+			}
+			tip = b
+		}
+	}
+}
+
 // corpus cases (scripted; run first on every check)
 func (g *world) corpus(name string) {
 	e := g.e
@@ -687,6 +812,29 @@ func (g *world) corpus(name string) {
 		mk := e.NewTx([]cl.Out{u.out}, []cl.OutSpec{{Amount: u.out.Amount() - cl.DefaultFee, Program: e.Progs[PA2].Code, Vote: e.VoteTo}}, 0)
 		a18 := g.addBlock(a17, []*types.Tx{mk}, POpTrue, false)
 		empty(a18, 4)
+	case "corpus-rescan-reorg":
+		// A17..A21; A18 pays account A's address 3, which the wallet has not registered yet.  Before
+		// the sixth delivery the wallet registers it and rescans; the updater is held after 16
+		// operations (genesis..15 re-attached) while B21 and B22 (forking at A20) reach the node; resumed,
+		// it finds A21 off the main chain and detaches it in the middle of the rescan
+		u := split(0)
+		a17 := empty(tip, 1)
+		pay := e.NewTx([]cl.Out{u.out}, []cl.OutSpec{{Amount: u.out.Amount() - cl.DefaultFee, Program: e.Progs[PA3].Code}}, 0)
+		a18 := g.addBlock(a17, []*types.Tx{pay}, POpTrue, false)
+		a20 := empty(a18, 2)
+		empty(a20, 1)
+		g.rescans[len(g.order)] = &rescanOp{Learn: PA3, Steps: []int{16, 0}}
+		empty(a20, 2)
+		g.late = nil
+	case "corpus-pool-vote-lag":
+		// the transaction creating a wallet-owned vote output at A17 goes through the node's pool; the
+		// wallet hears of it at once, but the pool's removal message reaches the wallet only after A20
+		// (regression: before /repo commit 781a2de1 ReserveParticular with useUnconfirmed reserved the
+		// locked output at heights 17..19 through the copy)
+		u := split(0)
+		mk := e.NewTx([]cl.Out{u.out}, []cl.OutSpec{{Amount: u.out.Amount() - cl.DefaultFee, Program: e.Progs[PA2].Code, Vote: e.VoteTo}}, 0)
+		a17 := g.addBlock(tip, []*types.Tx{mk}, POpTrue, false)
+		empty(a17, 4)
 	default:
 		panic("unknown corpus case " + name)
 	}
@@ -750,6 +898,8 @@ func RunCase(e *Env, c *Case, base string) (*Result, error) {
 		g.corpus(c.Kind)
 	case c.Kind == "down":
 		g.downTree()
+	case c.Kind == "rescan":
+		g.rescanTree()
 	default:
 		g.randomTree()
 	}
@@ -772,50 +922,37 @@ func RunCase(e *Env, c *Case, base string) (*Result, error) {
 	if err != nil {
 		return nil, err
 	}
+	const patience = 20 * time.Second
 	for _, bi := range e.Trunk {
 		if _, err := wn.N.Process(bi.Block); err != nil {
 			return nil, fmt.Errorf("trunk: %v", err)
 		}
-		if err := wn.Sync(true, 20*time.Second); err != nil {
+		if err := wn.Sync(true, patience); err != nil {
 			return nil, fmt.Errorf("trunk: %v", err)
 		}
 	}
 	fail24 := func(f string, a ...interface{}) { res.Fails24 = append(res.Fails24, fmt.Sprintf(f, a...)) }
 	fail25 := func(f string, a ...interface{}) { res.Fails25 = append(res.Fails25, fmt.Sprintf(f, a...)) }
+	// the scheduler's choices of the "pool" stream (which transactions reach the pool before their
+	// block, how long the wallet's pool message loop lags behind) come from a second stream of the seed
+	r2 := NewRng(c.Seed ^ 0x5bd1e995)
+	poolKind := c.Kind == "pool" || c.Kind == "corpus-pool-vote-lag"
+	scripted := c.Kind == "corpus-pool-vote-lag"
+	forward := func(k int) error {
+		n, err := wn.ForwardPoolMsgs(k, patience)
+		g.cnt["pool:messages-handled-by-wallet"] += n
+		return err
+	}
 	cur := g.path(TrunkLen)
 	fresh := 0
-	for di, l := range g.order {
-		d := Deliv{Block: l}
-		before := wn.W.GetWalletStatusInfo()
-		if _, err := g.deliverTo(wn.N, l); err != nil {
-			return nil, fmt.Errorf("delivery of block %d (height %d) failed: %v\n%s", l, g.height(l), err, res.Descr)
-		}
+	lastObs := wn.W.GetWalletStatusInfo() // the wallet's status at the last observation
+	var held *rescanOp                    // the rescan whose updater is being held
+	heldIdx := 0
+	rescanned := false // a rescan has been triggered since the last observation
+
+	// observe: the wallet has settled; look at it (d describes the node's last delivery)
+	observe := func(di int, d Deliv, forceFresh bool) error {
 		bestHash := wn.N.Chain.BestBlockHash()
-		bl, ok := g.byHash[*bestHash]
-		if !ok {
-			return nil, fmt.Errorf("unknown best block")
-		}
-		np := g.path(bl)
-		k := 0
-		for k < len(np) && k < len(cur) && np[k] == cur[k] {
-			k++
-		}
-		if len(np) != len(cur) || k != len(cur) {
-			d.Step, d.K, d.News = true, len(cur)-k, np[k:]
-			if len(cur)-k > 0 {
-				g.count("node:reorganisation")
-				if len(np) < len(cur) {
-					g.count("node:reorganisation-to-lower-chain")
-				}
-			}
-		}
-		cur = np
-		d.Height = wn.N.Chain.BestBlockHeight()
-		// the updater is woken only when the best height exceeds the wallet's
-		if err := wn.Sync(d.Height > before.WorkHeight, 20*time.Second); err != nil {
-			fail24("class=wallet-not-following: after delivery %d (block %d): %v", di, l, err)
-			fail25("class=wallet-not-following: after delivery %d (block %d): %v", di, l, err)
-		}
 		after := wn.W.GetWalletStatusInfo()
 		d.Synced = after.BestHash == *bestHash
 		if !d.Synced {
@@ -823,13 +960,13 @@ func RunCase(e *Env, c *Case, base string) (*Result, error) {
 		}
 		wl, ok := g.byHash[after.BestHash]
 		if !ok {
-			return nil, fmt.Errorf("wallet best block unknown")
+			return fmt.Errorf("wallet best block unknown")
 		}
 		wpath := g.path(wl)
 		detachedNow := false
-		if after.BestHash != before.BestHash {
+		if after.BestHash != lastObs.BestHash {
 			// did the wallet detach?
-			bp := g.path(g.byHash[before.BestHash])
+			bp := g.path(g.byHash[lastObs.BestHash])
 			j := 0
 			for j < len(bp) && j < len(wpath) && bp[j] == wpath[j] {
 				j++
@@ -839,15 +976,17 @@ func RunCase(e *Env, c *Case, base string) (*Result, error) {
 				g.count("wallet:detached-blocks")
 			}
 		}
+		lastObs = after
 		view, err := g.viewOf(wpath)
 		if err != nil {
-			return nil, fmt.Errorf("the real utxo view refuses the wallet's chain: %v", err)
+			return fmt.Errorf("the real utxo view refuses the wallet's chain: %v", err)
 		}
 		// ---- observe
 		list := wn.List()
 		d.Recs = make([][2]ORec, len(lab.OutID))
 		seen := map[bc.Hash]bool{}
 		reported := map[bc.Hash]bool{} // usable records the cheap oracle has already refused
+		usableConfirmed := map[bc.Hash]bool{}
 		for _, r := range list {
 			ol, ok := lab.outs[r.ID]
 			if !ok {
@@ -868,6 +1007,7 @@ func RunCase(e *Env, c *Case, base string) (*Result, error) {
 			}
 			// ---- C25: usable at the node's height => consensus accepts a spend at the next height
 			if r.Usable {
+				usableConfirmed[r.ID] = true
 				g.count("obs:usable")
 				if st != 2 {
 					reported[r.ID] = true
@@ -898,27 +1038,217 @@ func RunCase(e *Env, c *Case, base string) (*Result, error) {
 				}
 			}
 		}
+		// ---- C25, the caller accepts unconfirmed utxos (useUnconfirmed = true): whatever the keeper
+		// hands out IN ADDITION must, when it is an unspent output of the wallet's chain, be spendable
+		// at the next height as well.  An output that is not (or no longer) on that chain is what the
+		// caller asked for (a pool output, or the copy of a spent one whose removal message is late).
+		for _, o := range wn.OffersUnconfirmed(list) {
+			st, ent := spendStatus(view, o.ID, d.Height+1)
+			if o.InDB && o.InMap {
+				// the ingredient: a confirmed record and a copy in the keeper's unconfirmed map at once
+				g.count("obs:record-and-unconfirmed-copy:" + [3]string{"not-on-chain", "immature-or-locked", "spendable"}[st])
+			}
+			if (o.Find == nil && o.Reserve == nil) || usableConfirmed[o.ID] {
+				continue
+			}
+			switch st {
+			case 0:
+				g.count("obs:unconfirmed-offer-not-on-chain")
+				if u := o.Find; u != nil && u.Vote != nil {
+					// not judged (see the report): a vote output that only the pool knows is offered for a veto
+					g.count("obs:unconfirmed-offer-not-on-chain-is-vote-output")
+				}
+			case 2:
+				g.count("obs:unconfirmed-offer-spendable")
+			case 1:
+				kind := "coinbase output"
+				if ent.Type == storage.VoteUTXOType {
+					kind = "vote output"
+				}
+				dbValid := "none"
+				for _, r := range list {
+					if r.ID == o.ID {
+						dbValid = fmt.Sprint(r.Valid)
+					}
+				}
+				if o.Find != nil {
+					fail25("class=immature-reported-mature: after delivery %d findUtxos with useUnconfirmed=true offers %s %d (created at %d; valid height of the wallet's record: %s, of the utxo handed out: %d) at height %d (wallet in step with the node: %v) although findUtxos with useUnconfirmed=false withholds it; applySpendUtxo refuses it at height %d", di, kind, lab.outs[o.ID], ent.BlockHeight, dbValid, o.Find.ValidHeight, d.Height, d.Synced, d.Height+1)
+				}
+				if o.Reserve != nil {
+					fail25("class=immature-reserved-unconfirmed-copy: after delivery %d ReserveParticular with useUnconfirmed=true reserves %s %d (created at %d; valid height of the wallet's record: %s, of the utxo handed out: %d) at height %d (wallet in step with the node: %v) although ReserveParticular with useUnconfirmed=false refuses it; applySpendUtxo refuses it at height %d", di, kind, lab.outs[o.ID], ent.BlockHeight, dbValid, o.Reserve.ValidHeight, d.Height, d.Synced, d.Height+1)
+				}
+			}
+		}
+		// ---- C25, correspondence of the keeper's lookups (C25/Keeper.v): observations with copies in the map
+		if len(res.Keeper) < 8 {
+			if ko := wn.keeperObs(list, lab, d.Height); ko != nil {
+				res.Keeper = append(res.Keeper, *ko)
+			}
+		}
 		// the converse: every unspent output of the chain that pays a wallet program is listed
 		for id, ent := range view.Entries {
 			if ent.Spent || seen[id] {
 				continue
 			}
 			if i := g.blocks[wl].st.find(id); i >= 0 {
-				if u := g.blocks[wl].st.avail[i]; u.prog >= PA1 && u.prog <= PB1 {
+				if u := g.blocks[wl].st.avail[i]; wn.Owns(u.prog) {
 					fail24("class=missing-utxo: after delivery %d the wallet (best block %d) does not hold output %d (program %d) which is unspent on that chain", di, wl, lab.outs[id], u.prog)
 				}
 			}
 		}
 		res.Delivs = append(res.Delivs, d)
 		// ---- the expensive oracles: a FRESH node + wallet fed exactly the wallet's chain
-		last := di == len(g.order)-1
-		if (detachedNow && fresh < 3) || last {
+		if (detachedNow && fresh < 3) || forceFresh {
 			fresh++
 			if err := g.freshOracle(wn, wpath, list, reported, lab, di, d, fmt.Sprintf("%s/fresh%d", base, fresh), fail24, fail25); err != nil {
-				return nil, err
+				return err
 			}
 		}
+		return nil
 	}
+
+	for di, l := range g.order {
+		// ---- "rescan" stream: a rescan starts before this delivery
+		if op := g.rescans[di]; op != nil {
+			if op.Learn != 0 {
+				if err := wn.Learn(op.Learn); err != nil {
+					return nil, err
+				}
+				g.count("rescan:late-program-registered")
+			}
+			if len(op.Steps) > 0 {
+				wn.Gate.Hold()
+			}
+			if op.Alias {
+				if err := wn.W.UpdateAccountAlias(wn.AcctID[1], fmt.Sprintf("acct1-%d", di)); err != nil {
+					return nil, err
+				}
+			} else {
+				wn.W.RescanBlocks()
+			}
+			g.count("rescan:triggered")
+			rescanned = true
+			if len(op.Steps) > 0 {
+				held, heldIdx = op, 0
+				n, err := wn.Gate.Allow(op.Steps[0], patience)
+				if err != nil {
+					fail24("class=wallet-not-following: rescan before delivery %d: %v", di, err)
+					fail25("class=wallet-not-following: rescan before delivery %d: %v", di, err)
+				}
+				g.cnt["rescan:operations-before-held-deliveries"] += n
+				g.count("rescan:held")
+			} else {
+				if err := wn.Sync(true, patience); err != nil {
+					fail24("class=wallet-not-following: rescan before delivery %d: %v", di, err)
+					fail25("class=wallet-not-following: rescan before delivery %d: %v", di, err)
+				}
+				rescanned = false
+				g.count("rescan:free-running")
+				if err := observe(di, Deliv{Block: -1, Height: wn.N.Chain.BestBlockHeight()}, true); err != nil {
+					return nil, err
+				}
+			}
+		}
+		d := Deliv{Block: l}
+		// ---- "pool" stream: transactions of the block reach the node's pool before the block does
+		if poolKind && len(cur) > 0 && g.blocks[l].parent == cur[len(cur)-1] {
+			for _, tx := range g.blocks[l].info.Block.Transactions[1:] {
+				if !scripted && !r2.Chance(65) {
+					continue
+				}
+				orphan, err := wn.N.Chain.ValidateTx(tx)
+				switch {
+				case err != nil:
+					g.count("pool:refused")
+				case orphan:
+					g.count("pool:orphan")
+				default:
+					g.count("pool:accepted")
+				}
+			}
+			wn.CollectPoolMsgs()
+			if scripted || r2.Chance(85) {
+				if err := forward(-1); err != nil {
+					return nil, err
+				}
+			}
+		}
+		if _, err := g.deliverTo(wn.N, l); err != nil {
+			return nil, fmt.Errorf("delivery of block %d (height %d) failed: %v\n%s", l, g.height(l), err, res.Descr)
+		}
+		wn.CollectPoolMsgs()
+		if scripted {
+			if di >= 3 {
+				err = forward(-1)
+			}
+		} else if poolKind {
+			switch x := r2.Intn(100); {
+			case x < 45: // the wallet's pool loop lags behind
+			case x < 80:
+				err = forward(-1)
+			default:
+				err = forward(1)
+			}
+		} else {
+			err = forward(-1)
+		}
+		if err != nil {
+			return nil, err
+		}
+		if wn.QueuedBatches() > 0 {
+			g.count("pool:observations-with-messages-pending")
+		}
+		bestHash := wn.N.Chain.BestBlockHash()
+		bl, ok := g.byHash[*bestHash]
+		if !ok {
+			return nil, fmt.Errorf("unknown best block")
+		}
+		np := g.path(bl)
+		k := 0
+		for k < len(np) && k < len(cur) && np[k] == cur[k] {
+			k++
+		}
+		if len(np) != len(cur) || k != len(cur) {
+			d.Step, d.K, d.News = true, len(cur)-k, np[k:]
+			if len(cur)-k > 0 {
+				g.count("node:reorganisation")
+				if len(np) < len(cur) {
+					g.count("node:reorganisation-to-lower-chain")
+				}
+				if held != nil {
+					g.count("rescan:node-reorganised-while-held")
+				}
+			}
+		}
+		cur = np
+		d.Height = wn.N.Chain.BestBlockHeight()
+		if held != nil {
+			heldIdx++
+			if heldIdx < len(held.Steps) {
+				n, err := wn.Gate.Allow(held.Steps[heldIdx], patience)
+				if err != nil {
+					fail24("class=wallet-not-following: rescan held at delivery %d: %v", di, err)
+					fail25("class=wallet-not-following: rescan held at delivery %d: %v", di, err)
+				}
+				g.cnt["rescan:operations-between-held-deliveries"] += n
+				continue
+			}
+			wn.Gate.Release()
+			held = nil
+		}
+		// the updater is woken only when the best height exceeds the wallet's (a rescan makes it walk anyway)
+		if err := wn.Sync(rescanned || d.Height > lastObs.WorkHeight, patience); err != nil {
+			fail24("class=wallet-not-following: after delivery %d (block %d): %v", di, l, err)
+			fail25("class=wallet-not-following: after delivery %d (block %d): %v", di, l, err)
+		}
+		forceFresh := di == len(g.order)-1 || (rescanned && fresh < 5)
+		rescanned = false
+		if err := observe(di, d, forceFresh); err != nil {
+			return nil, err
+		}
+	}
+	g.cnt["rescan:detach-while-rescanning"] += wn.Gate.DetachBehind
+	g.cnt["rescan:attach-while-rescanning"] += wn.Gate.AttachBehind
 	return res, nil
 }
 
@@ -927,7 +1257,7 @@ func RunCase(e *Env, c *Case, base string) (*Result, error) {
 // must be accepted by that fresh node (C25; only when the wallet is in step with its node).
 func (g *world) freshOracle(wn *WalletNode, wpath []int, list []Rec, reported map[bc.Hash]bool, lab *Labeler, di int, d Deliv, dir string,
 	fail24, fail25 func(string, ...interface{})) error {
-	fn, err := g.e.NewWalletNode(dir)
+	fn, err := g.e.NewWalletNode(dir, wn.LearnedList()...)
 	if err != nil {
 		return err
 	}
@@ -1006,6 +1336,7 @@ func (g *world) freshOracle(wn *WalletNode, wpath []int, list []Rec, reported ma
 	probe := g.e.W.NewBlock(tip.info, txs, cl.BlockOpt{Skip: 7})
 	g.count("oracle:probe-blocks")
 	_, perr := fn.N.Process(probe.Block)
+	fn.CollectPoolMsgs()
 	if perr != nil || *fn.N.Chain.BestBlockHash() != probe.Hash {
 		fail25("class=probe-block-rejected: after delivery %d a block at height %d spending the outputs the keeper offers (%s) is refused by a fresh node holding the same chain: %v", di, probe.Block.Height, strings.Join(ids, ","), perr)
 	}
@@ -1042,4 +1373,80 @@ func (g *world) describe() string {
 		sb.WriteString(" ")
 	}
 	return sb.String()
+}
+
+// keeperObs: the keeper's inputs (the wallet's records, the copies in the unconfirmed map, the
+// node's height) and everything it hands out, both ways; nil when the map is empty or holds an
+// output no block of the case creates.
+func (wn *WalletNode) keeperObs(list []Rec, lab *Labeler, h uint64) *KObs {
+	unc := wn.Keeper.ListUnconfirmed()
+	if len(unc) == 0 {
+		return nil
+	}
+	ko := &KObs{H: h}
+	krec := func(r Rec) (KRec, bool) {
+		ol, ok := lab.outs[r.ID]
+		if !ok || r.Prog < 0 || r.Acct < 0 {
+			return KRec{}, false
+		}
+		return KRec{int64(ol), int64(r.Asset), int64(r.Amount), int64(r.Prog), int64(r.Vote), int64(r.Acct), int64(r.Index), boolU(r.Change), int64(r.Valid)}, true
+	}
+	ids := map[int]bool{}
+	for _, r := range list {
+		k, ok := krec(r)
+		if !ok {
+			return nil
+		}
+		if r.Std {
+			ko.Std = append(ko.Std, k)
+		} else {
+			ko.Ctr = append(ko.Ctr, k)
+		}
+		ids[int(k[0])] = true
+	}
+	var us []Rec
+	for _, u := range unc {
+		us = append(us, wn.project(true, u))
+	}
+	sort.Slice(us, func(i, j int) bool { return us[i].ID.String() < us[j].ID.String() })
+	for _, r := range us {
+		k, ok := krec(r)
+		if !ok {
+			return nil
+		}
+		ko.Unc = append(ko.Unc, k)
+		ids[int(k[0])] = true
+	}
+	for id := range ids {
+		ko.Ids = append(ko.Ids, id)
+	}
+	sort.Ints(ko.Ids)
+	for _, flag := range []bool{true, false} {
+		var kf KFlag
+		for a := 1; a <= 2; a++ {
+			for _, vote := range [][]byte{nil, wn.Env.VoteTo} {
+				found, imm := wn.Keeper.VerifFindUtxos(wn.AcctID[a], consensus.BTMAssetID, flag, vote)
+				prs := [][2]int64{}
+				for _, u := range found {
+					prs = append(prs, [2]int64{int64(lab.outs[u.OutputID]), int64(u.ValidHeight)})
+				}
+				sort.Slice(prs, func(i, j int) bool { return prs[i][0] < prs[j][0] })
+				kf.Find = append(kf.Find, prs)
+				kf.Imm = append(kf.Imm, imm)
+			}
+		}
+		for _, id := range ko.Ids {
+			v := int64(-1)
+			if u := wn.reservable(lab.OutID[id-1], flag); u != nil {
+				v = int64(u.ValidHeight)
+			}
+			kf.Res = append(kf.Res, v)
+		}
+		if flag {
+			ko.True = kf
+		} else {
+			ko.False = kf
+		}
+	}
+	return ko
 }
